@@ -730,7 +730,7 @@ func TestVerifC08(t *testing.T) {
 	r.Assume("signer and verifier share a library (go-msgauth): the oracle is verification of the bytes the next hop received against the key the signer itself published in its .dns file, not an independent canonicaliser")
 	r.Assume("the test zone answers a TXT query whose name holds U-labels as if it had been converted to A-labels (counted as observed_not_asserted_txt_lookup_with_u_label_name)")
 	r.Assume("header fields hold UTF-8 only in SMTPUTF8 messages; raw 8-bit bytes appear in bodies only; bare CR/LF and NUL are outside the quantifier")
-	ev.Run(t, r, ev.Spec[c08Case]{Name: "sign-spool-transmit-verify", N: r.Scale(1, 1, 1), Gen: c08Gen, Run: c08Run, Info: c08Info})
+	ev.Run(t, r, ev.Spec[c08Case]{Name: "sign-spool-transmit-verify", Journal: true, N: r.Scale(1, 1, 1), Gen: c08Gen, Run: c08Run, Info: c08Info})
 	if c08KeyDir != "" {
 		os.RemoveAll(c08KeyDir)
 	}
